@@ -28,10 +28,23 @@ def producers():
             if f.endswith("report.rs") and q == "Report":
                 continue
             ctors = [c for c in walk(fn["body"]) if c["k"] == "Call" and c["func"]["k"] == "Path" and re.fullmatch(r"(?:\w+::)*Report::(error|warning|info)", c["func"]["path"])]
+            fn_view = fn
+            if ctors:
+                # a private helper of the file that attaches the label (`add_label_if_known(&mut report, ..)`) is read in place
+                helpers_ = {g["name"] for _q2, g in fns_in_file(f) if g is not fn and g.get("body") and g.get("vis") != "pub" and any(True for _ in method_calls(g["body"], "add_primary"))}
+                if helpers_ and any(x["k"] == "Call" and x["func"]["k"] == "Path" and last(x["func"]["path"]) in helpers_ for x in walk(fn["body"])):
+                    from astlib import inline_helpers
+
+                    others = tuple(g["name"] for _q2, g in fns_in_file(f) if g["name"] not in helpers_)
+                    fn_view = inline_helpers(fn, f, exclude=others)
             for c in ctors:
                 cat = last(c["func"]["path"])
                 code = render(strip(c["args"][1])) if len(c["args"]) > 1 else "?"
-                label, detail = label_coverage(fn, c)
+                c_view = c
+                if fn_view is not fn:
+                    same = [x for x in walk(fn_view["body"]) if x["k"] == "Call" and x.get("line") == c.get("line") and render(x) == render(c)]
+                    c_view = same[0] if same else None
+                label, detail = label_coverage(fn_view, c_view) if c_view is not None else label_coverage(fn, c)
                 out.append({"file": f, "qual": q, "fn": fn["name"], "node": c, "category": cat, "code": code, "label": label, "detail": detail})
     return out
 
